@@ -642,7 +642,21 @@ def _stretch(prog):
     if zname is None or zname not in env:
         raise AnalysisError("anchor vanished: (proposal, z) return of EnsembleSampler.__proposal")
     z = env[zname]
-    Y = guard(lambda: ex.eval(pp[0].args[0], env))
+    # the proposal as it is computed WHERE it is computed (a later re-binding of a name it reads does not change it), and the
+    # stretch factor it was built with
+    from ..term import Resolver as _Rz2
+    pp_stmt = _Rz2(fn).stmt_of(pp[0])
+    ex_b = expander(prog, ci)
+    ex_b.opaque_self_attrs = set(OPAQUE) - set()
+    env_b = {i: R.sym(i)}
+    guard(lambda: ex_b.run_until(fn.body, env_b, pp_stmt))
+    Y = guard(lambda: ex_b.eval(pp[0].args[0], env_b))
+    z_used = env_b.get(zname)
+    if not (isinstance(z_used, R) and isinstance(z, R) and z_used.eq(z)):
+        out.append(struct_ob("stretch", qual(c, fn) + "[z-returned]", False,
+                             f"the stretch factor handed to the accept test (`{zname}` = {z}) is not the one the proposal was built with ({z_used}): "
+                             f"the factor z^(n-1) then belongs to another move", rel, ret.lineno, tier="F"))
+        z = z_used if isinstance(z_used, R) else z
     jv = env.get("j")
     Xi = R.sym(f"self.walker_positions[{i}]")
     jtxt = None
